@@ -16,6 +16,31 @@ import (
 // sites the rule has walked through (one level of context per walked call).
 var paramBindings map[*ssa.Parameter][]ssa.Value
 
+// bindCallParams: when a rule has set autoBindParams (and paramBindings), entering a callee through one of its call sites binds the callee's
+// parameters to that site's arguments (context-insensitive union: a may-depend relation only grows).
+var autoBindParams bool
+
+func bindCallParams(call *ssa.Call, sc *ssa.Function) {
+	if !autoBindParams || paramBindings == nil {
+		return
+	}
+	for i, p := range sc.Params {
+		if i >= len(call.Common().Args) {
+			break
+		}
+		a := call.Common().Args[i]
+		dup := false
+		for _, x := range paramBindings[p] {
+			if x == a {
+				dup = true
+			}
+		}
+		if !dup {
+			paramBindings[p] = append(paramBindings[p], a)
+		}
+	}
+}
+
 func dependsOnValue(v ssa.Value, pred func(ssa.Value) bool, seen map[ssa.Value]bool, depth int) bool {
 	if v == nil || seen[v] || depth > 40 {
 		return false
@@ -75,6 +100,7 @@ func dependsOnValue(v ssa.Value, pred func(ssa.Value) bool, seen map[ssa.Value]b
 	// the result of a module function also depends on what that function returns (field-based predicates can match inside it)
 	if call, ok := v.(*ssa.Call); ok {
 		if sc := call.Common().StaticCallee(); sc != nil && isModuleFn(sc) && depth < 30 {
+			bindCallParams(call, sc)
 			for _, r := range returnsOf(sc) {
 				for _, res := range r.Results {
 					if dependsOnValue(res, pred, seen, depth+5) {
@@ -87,6 +113,7 @@ func dependsOnValue(v ssa.Value, pred func(ssa.Value) bool, seen map[ssa.Value]b
 	if ex, ok := v.(*ssa.Extract); ok {
 		if call, ok := ex.Tuple.(*ssa.Call); ok {
 			if sc := call.Common().StaticCallee(); sc != nil && isModuleFn(sc) && depth < 30 {
+				bindCallParams(call, sc)
 				for _, r := range returnsOf(sc) {
 					if ex.Index < len(r.Results) && dependsOnValue(r.Results[ex.Index], pred, seen, depth+5) {
 						return true
@@ -145,7 +172,7 @@ func resolvesAll(fn *ssa.Function, errIn ssa.Value) (ssa.Value, bool) {
 					continue
 				}
 				if lc, ok := cmp.Y.(*ssa.Call); ok {
-					if bi, ok := lc.Common().Value.(*ssa.Builtin); ok && bi.Name() == "len" && canon(lc.Common().Args[0]) == canon(sl) && len(h.Succs[1].Preds) == 1 {
+					if bi, ok := lc.Common().Value.(*ssa.Builtin); ok && bi.Name() == "len" && (canon(lc.Common().Args[0]) == canon(sl) || sameExpr(lc.Common().Args[0], sl, 0)) && len(h.Succs[1].Preds) == 1 {
 						return sl, true
 					}
 				}
@@ -164,6 +191,15 @@ var ruleA4 = &Rule{
 	Run: func(c *Ctx) []Obl {
 		var obls []Obl
 		foundFlush := false
+		paramBindings = map[*ssa.Parameter][]ssa.Value{}
+		autoBindParams = true
+		defer func() { paramBindings, autoBindParams = nil, false }()
+		type flushSite struct {
+			fn     *ssa.Function
+			doCall *ssa.Call // the call whose result is the INSERT outcome in fn: client.Do itself, or the helper that runs it
+			query  ssa.Value // the ch-go query (in the function that calls client.Do)
+		}
+		var flushes []flushSite
 		for _, fn := range liveModuleFuncs(c, "writer/service") {
 			var doCall *ssa.Call
 			for _, b := range fn.Blocks {
@@ -180,6 +216,37 @@ var ruleA4 = &Rule{
 			if doCall == nil {
 				continue
 			}
+			// the INSERT may sit in a helper that hands its outcome back unchanged: the flush routine is then each caller
+			lifted := false
+			if rets := returnsOf(fn); len(rets) > 0 && len(fn.Params) > 0 {
+				all := true
+				for _, r := range rets {
+					if !reachAvoiding(fn, doCall, r, func(ssa.Instruction) bool { return false }) {
+						continue
+					}
+					if len(r.Results) == 0 || !isValueOrItsCell(r.Results[len(r.Results)-1], doCall) {
+						all = false
+					}
+				}
+				if all && types.Identical(fn.Signature.Results().At(fn.Signature.Results().Len()-1).Type(), types.Universe.Lookup("error").Type()) {
+					for _, site := range callSitesOf(c, fn) {
+						if call, ok := site.(*ssa.Call); ok && strings.HasPrefix(fnPkgRel(site.Parent()), "writer/service") {
+							bindCallParams(call, fn)
+							flushes = append(flushes, flushSite{site.Parent(), call, doCall.Common().Args[1]})
+							lifted = true
+						}
+					}
+				}
+			}
+			if !lifted {
+				flushes = append(flushes, flushSite{fn, doCall, doCall.Common().Args[1]})
+			}
+		}
+		for _, fs := range flushes {
+			fn, doCall := fs.fn, fs.doCall
+			if doCall.Common().Signature().Results().Len() != 1 {
+				continue
+			}
 			foundFlush = true
 			name := ssaName(fn)
 			add := func(k string, ok bool, pos token.Pos, msg string) {
@@ -194,9 +261,10 @@ var ruleA4 = &Rule{
 			E := ssa.Value(doCall)
 			// completion sites after Do
 			type completion struct {
-				ins    ssa.Instruction
-				list   ssa.Value // promise list in the flush routine
-				errArg ssa.Value
+				ins       ssa.Instruction
+				list      ssa.Value // promise list in the flush routine (or the object holding it, see listField)
+				errArg    ssa.Value
+				listField string // when the completer reads the list from a field of one of its arguments: that field
 			}
 			var comps []completion
 			for _, b := range fn.Blocks {
@@ -232,14 +300,28 @@ var ruleA4 = &Rule{
 									}
 								}
 							}
-							comps = append(comps, completion{ins, list, a})
+							listField := ""
+							if list == nil {
+								// the list is a field of an object the completer receives (a method of the portion)
+								if u, ok := sl.(*ssa.UnOp); ok && u.Op == token.MUL {
+									if fa, ok := u.X.(*ssa.FieldAddr); ok {
+										for j, p := range callee.Params {
+											if canon(p) == canon(fa.X) && j < len(ci.Common().Args) {
+												list = ci.Common().Args[j]
+												listField = fieldNameOf(fa.X.Type(), fa.Field)
+											}
+										}
+									}
+								}
+							}
+							comps = append(comps, completion{ins, list, a, listField})
 						}
 					}
 				}
 			}
 			// in-place loop
 			if sl, ok := resolvesAllInPlace(fn, E); ok {
-				comps = append(comps, completion{nil, sl, E})
+				comps = append(comps, completion{nil, sl, E, ""})
 			}
 			add("completer resolves every waiting promise with its argument", len(comps) > 0, fn.Pos(), "no loop (in the flush routine or in a function it calls) that calls Done on every waiting promise with the error it is given")
 			if len(comps) == 0 {
@@ -304,12 +386,18 @@ var ruleA4 = &Rule{
 			}
 			okWaiting := portion != nil
 			for _, cp := range comps {
+				if cp.listField != "" {
+					if cp.listField != "res" || cp.list == nil || !dependsOnValue(cp.list, func(x ssa.Value) bool { return x == portion }, map[ssa.Value]bool{}, 0) {
+						okWaiting = false
+					}
+					continue
+				}
 				if cp.list == nil || !dependsOnValue(cp.list, fieldOfPortion("res"), map[ssa.Value]bool{}, 0) {
 					okWaiting = false
 				}
 			}
 			add("waiting list is a copy of the swapped portion's promises", okWaiting, fn.Pos(), "the promises resolved with the INSERT outcome must be exactly those swapped out together with the columns that are sent")
-			okCols := portion != nil && dependsOnValue(doCall.Common().Args[1], fieldOfPortion("cols"), map[ssa.Value]bool{}, 0)
+			okCols := portion != nil && dependsOnValue(fs.query, fieldOfPortion("cols"), map[ssa.Value]bool{}, 0)
 			add("block is built from the swapped portion's columns", okCols, fn.Pos(), "the block sent must be built from the columns swapped out together with the promises")
 		}
 		if !foundFlush {
@@ -496,4 +584,30 @@ func msgIf(cond bool, msg string) string {
 		return msg
 	}
 	return ""
+}
+
+// isValueOrItsCell: v is e, or a load of a local cell into which only e is ever stored (results are spilled to a cell in
+// functions that defer).
+func isValueOrItsCell(v ssa.Value, e ssa.Value) bool {
+	if v == e {
+		return true
+	}
+	u, ok := v.(*ssa.UnOp)
+	if !ok || u.Op != token.MUL {
+		return false
+	}
+	a, ok := u.X.(*ssa.Alloc)
+	if !ok || a.Referrers() == nil {
+		return false
+	}
+	n := 0
+	for _, r := range *a.Referrers() {
+		if st, ok := r.(*ssa.Store); ok && st.Addr == ssa.Value(a) {
+			if st.Val != e {
+				return false
+			}
+			n++
+		}
+	}
+	return n > 0
 }
